@@ -155,7 +155,7 @@ def plan(tier, seed):
                           "exhaustive": "close() from a second thread at every traced line of the loop thread of 4 reference runs"
                           if step == 1 else None})
     items.append({"kind": "modes", "exhaustive": "every ending mode x every callback it can be triggered from x with/without ping thread x as first and as second run"})
-    n = 5000 if tier == "quick" else 120000
+    n = 5000 if tier == "quick" else 480000
     per = 125 if tier == "quick" else 1000
     for s in range(0, n, per):
         items.append({"kind": "rand", "start": s, "count": per})
